@@ -724,10 +724,17 @@ func refreshRing(r *ringDescriber) error {
 
 	prevHosts := r.session.ring.currentHosts()
 
+	seenHostIDs := make(map[string]struct{}, len(hosts))
 	for _, h := range hosts {
 		if r.session.cfg.filterHost(h) {
 			continue
 		}
+
+		if _, duplicate := seenHostIDs[h.HostID()]; duplicate {
+			// the same host listed twice, e.g. system.local and system.peers overlap
+			continue
+		}
+		seenHostIDs[h.HostID()] = struct{}{}
 
 		if host, ok := r.session.ring.addHostIfMissing(h); !ok {
 			r.session.startPoolFill(h)
